@@ -33,6 +33,7 @@ class Function:
         self._rd = None
         self._addr_taken = None
         self._canon_cache = {}
+        self._thru_calls = False
 
     # ---- tree navigation ---------------------------------------------
     def n(self, i):
@@ -200,11 +201,17 @@ class Function:
     def src(self, i):
         return self.canon(i, subst=False)
 
-    def canon(self, i, subst=True, fold=True, casts=False, depth=6, inline_helpers=False, _stack=None):
-        key = (i, subst, fold, casts, depth, inline_helpers)
+    def canon(self, i, subst=True, fold=True, casts=False, depth=6, inline_helpers=False, calls=False, _stack=None):
+        """calls=True also substitutes locals defined by calls with side
+        effects (provenance through a constructor / mutator call)"""
+        key = (i, subst, fold, casts, depth, inline_helpers, calls)
         if _stack is None and key in self._canon_cache:
             return self._canon_cache[key]
-        r = self._canon(i, subst, fold, casts, depth, inline_helpers, _stack or ())
+        self._thru_calls = calls
+        try:
+            r = self._canon(i, subst, fold, casts, depth, inline_helpers, _stack or ())
+        finally:
+            self._thru_calls = False
         if _stack is None:
             self._canon_cache[key] = r
         return r
@@ -236,7 +243,7 @@ class Function:
         if k == "DeclRef":
             if nd["ref"] in ("local", "param") and subst and depth > 0 and nd["decl"] not in self.addr_taken and nd["decl"] not in stack:
                 v = self.rd.unique_def_value(i)
-                if v is not None and not self._is_alloc(v):
+                if v is not None and (self._thru_calls or not self._is_alloc(v)):
                     return self._canon(v, subst, fold, casts, depth - 1, inl, stack + (nd["decl"],))
             return nd["name"]
         if k == "Member":
@@ -321,7 +328,7 @@ class Function:
             return ""
         return "<%s>" % k
 
-    def def_forms(self, use_node, subst=True):
+    def def_forms(self, use_node, subst=True, calls=False):
         """canonical forms of every definition of a local that reaches
         use_node: list of (def_node, form|None); None = unknown value
         (parameter entry, ++/--, compound assignment, uninitialised).  A
@@ -331,7 +338,7 @@ class Function:
             if val in (None, "uninit", "param"):
                 out.append((dn, None if val is None else val))
             else:
-                out.append((dn, self.canon(val, subst=subst)))
+                out.append((dn, self.canon(val, subst=subst, calls=calls)))
         return out
 
     def local_defs(self, decl, subst=True):
@@ -347,11 +354,16 @@ class Function:
         return out
 
     def _is_alloc(self, v):
-        """a freshly allocated object is named by its variable, not by the
-        allocation call"""
-        j = self.strip(v)
-        nd = self.nodes[j]
-        return nd["k"] == "Call" and (nd.get("callee") or "").startswith(("__ckd_", "ckd_", "malloc", "calloc", "realloc", "__listelem_malloc__"))
+        """a value computed by a call with side effects (allocation,
+        construction, mutation) is named by its variable, never re-rendered
+        as the call; pure accessors are substituted"""
+        for j in self.walk(v):
+            nd = self.nodes[j]
+            if nd["k"] == "Call":
+                cal = nd.get("callee")
+                if cal is None or not self.prog.is_pure(cal):
+                    return True
+        return False
 
     def _lhs(self, i, C):
         """an assigned / address-taken operand: a bare variable is never
@@ -857,6 +869,7 @@ class Program:
         self.protos = []
         self._callers = None
         self._slots = None
+        self._pure = {}
 
     def unit(self, u):
         if u not in self.units:
@@ -1048,6 +1061,43 @@ class Program:
                         if cal not in seen:
                             dq.append(cal)
         return seen
+
+    # ---- purity ------------------------------------------------------------
+    PURE_LIBC = {"strlen", "strcmp", "strncmp", "strchr", "strrchr", "strstr", "abs", "labs", "fabs", "log", "log10", "exp", "pow", "sqrt", "floor", "ceil",
+                 "cos", "sin", "atof", "atoi", "strtol", "strtod", "isspace", "isdigit", "toupper", "tolower", "memcmp", "__builtin_expect"}
+
+    def is_pure(self, name, _stack=None):
+        """no store to non-local memory and only pure callees (transitively);
+        unknown externals are impure"""
+        if name in self._pure:
+            return self._pure[name]
+        if name in self.PURE_LIBC:
+            return True
+        fs = self.fn_index.get(name)
+        if not fs:
+            self._pure[name] = False
+            return False
+        _stack = _stack or set()
+        if name in _stack:
+            return True
+        _stack = _stack | {name}
+        f = fs[0]
+        ok = True
+        for i, nd in enumerate(f.nodes):
+            k = nd["k"]
+            if k in ("Assign", "CompoundAssign") or (k == "Un" and nd.get("op") in ("post++", "pre++", "post--", "pre--")):
+                t = f.strip(nd["ch"][0])
+                tn = f.nodes[t]
+                if not (tn["k"] == "DeclRef" and tn["ref"] in ("local", "param")):
+                    ok = False
+                    break
+            elif k == "Call":
+                cal = nd.get("callee")
+                if cal is None or not self.is_pure(cal, _stack):
+                    ok = False
+                    break
+        self._pure[name] = ok
+        return ok
 
     # ---- helper inlining for canonical forms ------------------------------
     def inline_simple(self, caller, call, subst, fold, casts, depth, stack):
